@@ -1,5 +1,5 @@
 (* C01 — Route selection follows the documented pattern semantics. Property theorems only. *)
-From Rux Require Import Base Str Norm Rx Pattern Pat PatFacts Cache Table TableFacts PatTable SelectFacts.
+From Rux Require Import Base Str Norm Rx RxParse Pattern Pat PatFacts Cache Table TableFacts PatTable SelectFacts RoundTrip.
 
 (* For every table of grammar-level routes (static paths and patterns: literal text, {name}, {name:regex},
    nested optional tails; any method sets; wf_sroute = '/'-free duplicate-free methods, rooted paths, variable
@@ -37,8 +37,27 @@ Proof. exact match_transparent. Qed.
 Theorem C01_paths_rooted : forall strict s, exists t, format_path strict s = Ok (slash :: t).
 Proof. intros strict s. eexists. apply NormFacts.format_core. Qed.
 
+(* link between the two front ends, proved (not only tested) for a printable fragment of pattern texts
+   (RoundTrip.printable: literals alphanumeric or / - _ . ; variables {name} or {name:regex} with distinct
+   alphanumeric names, regex a sequence of literals, \d, \w, ., [classes] with * + ? ; nested optional tails):
+   the string-level compilation of router.go (compile_dyn + regex parser, the model that is run against the code)
+   accepts the printed text, and the route it registers has the tier data of the grammar-level route of the
+   theorems above and matches exactly the same paths with the same captures *)
+Theorem C01_text_link : forall p ms, printable p = true ->
+  exists d r,
+    parse_pat (show_ppat p) = Some (to_pat p) /\
+    compile_dyn (show_ppat p) = Ok d /\
+    compile_re d = Ok (CRx r (List.length (d_names d))) /\
+    rt_kind (route_of {| s_methods := ms; s_path := show_ppat p; s_pat := Some (to_pat p) |}) =
+      KDyn (d_start d) (d_first d) (CRx (pat_rx (to_pat p)) (List.length (d_names d))) (d_names d) /\
+    (forall path, full r path = full (pat_rx (to_pat p)) path) /\
+    (forall path, match_regex (CRx r (List.length (d_names d))) (d_names d) path =
+                  match_regex (CRx (pat_rx (to_pat p)) (List.length (d_names d))) (d_names d) path).
+Proof. exact roundtrip_printable. Qed.
+
 Print Assumptions C01_selection.
 Print Assumptions C01_sound.
 Print Assumptions C01_complete.
 Print Assumptions C01_cached.
 Print Assumptions C01_paths_rooted.
+Print Assumptions C01_text_link.
